@@ -50,17 +50,21 @@ static void ivalues(uint64_t len, std::vector<IT>& out)
     for (i128 v = (i128)std::numeric_limits<IT>::min(); v <= (i128)std::numeric_limits<IT>::max(); v++) out.push_back((IT)v);
   } else {
     std::set<i128> s;
-    for (i128 v = -2; v <= (i128)len + 2; v++) s.insert(v);
+    if (len <= 64) for (i128 v = -2; v <= (i128)len + 2; v++) s.insert(v);
+    else for (i128 v : { (i128)-2, (i128)-1, (i128)0, (i128)1, (i128)len / 2, (i128)len - 1, (i128)len, (i128)len + 1, (i128)len + 2 }) s.insert(v);
     s.insert((i128)std::numeric_limits<IT>::min());
     s.insert((i128)std::numeric_limits<IT>::min() + 1);
     s.insert((i128)(u128)std::numeric_limits<IT>::max());
     s.insert((i128)(u128)std::numeric_limits<IT>::max() - 1);
-    for (uint64_t i = 0; i < len; i++)
+    std::vector<uint64_t> is;
+    if (len <= 64) for (uint64_t i = 0; i < len; i++) is.push_back(i);
+    else is = { 0, 1, 2, len / 2, len - 2, len - 1 };
+    for (uint64_t i : is)
       for (int k : { 8, 16, 31, 32, 33, 63 }) {
         s.insert(((i128)1 << k) + i);
         s.insert(-((i128)1 << k) + i);
       }
-    if (g_thorough) {
+    if (g_thorough && len <= 64) {
       // every index up to 8x the length (a bound computed from a wrong element size is off by a factor <= 8), a wide band around 0,
       // and aliasing values for every power of two
       for (i128 v = -300; v <= (i128)len * 8 + 300; v++) s.insert(v);
@@ -126,7 +130,8 @@ static void one_tainted(IT idx)
     tn<T[N]> a;
     uint8_t post[32];
   } box;
-  memset(&box, 0xA5, sizeof box);
+  constexpr bool big = N > 64; // long arrays (index-width aliasing needs N > 128 / N > 32768): abort + address only, no canary scan
+  if (!big) memset(&box, 0xA5, sizeof box);
   i128 im = std::is_signed_v<IT> ? (i128)idx : (i128)(u128)idx;
   bool in_range = im >= 0 && im < (i128)N;
   uintptr_t got = 0;
@@ -136,7 +141,7 @@ static void one_tainted(IT idx)
     auto& el = box.a[ix];
     aborted = g_abort_flag;
     got = reinterpret_cast<uintptr_t>(&el);
-    if (!aborted && in_range) {
+    if (!big && !aborted && in_range) {
       memset(reinterpret_cast<void*>(got), 0x3C, sizeof(T));
       const uint8_t* b = reinterpret_cast<const uint8_t*>(&box);
       uintptr_t off = got - reinterpret_cast<uintptr_t>(&box);
@@ -157,7 +162,8 @@ static void one_volatile(IT idx)
   const uint64_t OFF = 0x1000;
   uint8_t* region = reinterpret_cast<uint8_t*>(g_base + OFF - 64);
   const size_t span = 64 + N * 8 + 64;
-  memset(region, 0xA5, span);
+  constexpr bool big = N > 64;
+  if (!big) memset(region, 0xA5, span);
   tn<T(*)[N]> p;
   p.assign_raw_pointer(*g_sb, reinterpret_cast<T(*)[N]>(g_base + OFF));
   i128 im = std::is_signed_v<IT> ? (i128)idx : (i128)(u128)idx;
@@ -170,7 +176,7 @@ static void one_volatile(IT idx)
     aborted = g_abort_flag;
     got = reinterpret_cast<uintptr_t>(&reinterpret_cast<const volatile char&>(el));
     if (sizeof(el) != s) store_ok = false;
-    if (!aborted && in_range) {
+    if (!big && !aborted && in_range) {
       memset(reinterpret_cast<void*>(got), 0x3C, s);
       uintptr_t off = got - reinterpret_cast<uintptr_t>(region);
       for (size_t i = 0; i < span; i++)
@@ -367,6 +373,17 @@ int main(int argc, char** argv)
   lens_some<long long>();
   lens_some<int*>();
   lens_some<double>();
+#endif
+#ifdef C17_E
+  // long arrays: a negative 8-bit index viewed as unsigned is < 256, a negative 16-bit index < 65536 - the lengths that a
+  // check done in the index's own width would let through
+  arr1d<char, 129, false>();
+  arr1d<char, 200, false>();
+  arr1d<char, 256, false>();
+  arr1d<char, 300, false>();
+  arr1d<char, 32769, false>();
+  arr1d<char, 40000, false>();
+  arr1d<long, 200, false>();
 #endif
 #ifdef C17_D
   arr2d<int, 2, 3>();
